@@ -267,7 +267,7 @@ def configs(draw, n_min: int, n_max: int, lib_only=None, sam_only: bool = False)
         rest = [s for s in range(1 << n) if s not in mins]
         extra = draw(st.lists(st.sampled_from(rest), max_size=2, unique=True))
     return {"n": n, "games": games, "computer": comp, "gap": draw(st.sampled_from(GAPS)),
-            "budget": draw(st.sampled_from([None, None, 1, 2, 4])), "extra_known": sorted(extra)}
+            "budget": draw(st.sampled_from([None, None, 1, 2, 4, 0])), "extra_known": sorted(extra)}
 
 
 def make_machine(n_min: int, n_max: int, sam_only: bool = False):
